@@ -1,0 +1,95 @@
+// SPDX-FileCopyrightText: 2026 The Pion community <https://pion.ly>
+// SPDX-License-Identifier: MIT
+
+//go:build verif
+
+// Machine-checked contracts for package server (comment-only file; compiled only with -tags verif,
+// and even then it adds no code). Checked by /verif/turnvc against the go/ssa of this package.
+
+package server
+
+//@      // ---- the request's own allocation: the one keyed by the 5-tuple the datagram arrived on (C04)
+//@ spec func ownAlloc(req Request) *allocation.Allocation = allocOf(req.AllocationManager, req.SrcAddr, localAddrOf(req.Conn), 0)
+//@ spec func reqWF(req Request) bool = req.Log != nil && req.Conn != nil && req.AllocationManager != nil && req.AllocationManager.allocations != nil
+//@ spec func ownWF(req Request) bool = ownAlloc(req) != nil ==> (allocWF(ownAlloc(req)) && permTimers(ownAlloc(req)) && chanTimers(ownAlloc(req)) && timersDisjoint(ownAlloc(req)))
+//@ spec func ownTuple(ft *allocation.FiveTuple, req Request) bool = ft != nil && ft.SrcAddr == req.SrcAddr && ft.DstAddr == localAddrOf(req.Conn) && int(ft.Protocol) == 0
+
+//@ func handleSendIndication
+//@   requires reqWF(req) && ownWF(req) && stunMsg != nil
+//@   at-call (*allocation.Manager).GetAllocation assert [C04:own-tuple] recv == req.AllocationManager && ownTuple(arg0, req)
+//@   at-call (*allocation.Allocation).WriteTo assert [C01,C04:own-allocation] recv == ownAlloc(req)
+//@   at-call (*allocation.Allocation).WriteTo assert [C05:payload] sameSlice(arg0, attr(stunMsg, stun.AttrData))
+//@   at-call (*allocation.Allocation).WriteTo assert [C01,C05:peer] isUDP(arg1) && ipStr(ipOf(arg1)) == xorAddrIP(stunMsg, stun.AttrXORPeerAddress) && portOf(arg1) == xorAddrPort(stunMsg, stun.AttrXORPeerAddress)
+//@   ensures [C01:only-own-relay] forall c :: pktWrites[c] != old(pktWrites[c]) ==> ownAlloc(req) != nil && c == ownAlloc(req).relayPacketConn
+//@   ensures [C01:only-permitted] pktWrites != old(pktWrites) ==> hasAttr(stunMsg, stun.AttrData) && hasAttr(stunMsg, stun.AttrXORPeerAddress) && haskey(ownAlloc(req).permissions, xorAddrIP(stunMsg, stun.AttrXORPeerAddress))
+//@   ensures [C05:once] forall c :: pktWrites[c] <= old(pktWrites[c]) + 1
+//@   ensures [C05:short-write] res == nil ==> pktWrites != old(pktWrites)
+
+//@ func handleChannelData
+//@   requires reqWF(req) && ownWF(req) && channelData != nil
+//@   at-call (*allocation.Manager).GetAllocation assert [C04:own-tuple] recv == req.AllocationManager && ownTuple(arg0, req)
+//@   at-call (*allocation.Allocation).WriteTo assert [C01,C04:own-allocation] recv == ownAlloc(req)
+//@   at-call (*allocation.Allocation).WriteTo assert [C05:payload] sameSlice(arg0, channelData.Data)
+//@   at-call (*allocation.Allocation).WriteTo assert [C01,C05:bound-peer] exists i :: 0 <= i && i < len(ownAlloc(req).channelBindings) && ownAlloc(req).channelBindings[i].Number == channelData.Number && ownAlloc(req).channelBindings[i].Peer == arg1
+//@   ensures [C01:only-own-relay] forall c :: pktWrites[c] != old(pktWrites[c]) ==> ownAlloc(req) != nil && c == ownAlloc(req).relayPacketConn
+//@   ensures [C01:only-bound] pktWrites != old(pktWrites) ==> exists i :: 0 <= i && i < len(ownAlloc(req).channelBindings) && ownAlloc(req).channelBindings[i].Number == channelData.Number
+//@   ensures [C05:once] forall c :: pktWrites[c] <= old(pktWrites[c]) + 1
+//@   ensures [C05:short-write] res == nil ==> pktWrites != old(pktWrites)
+
+//@      // ---- response construction (C19): a response is a setter list whose element 0 carries the transaction id
+//@ spec func txOf(attrs []stun.Setter) [12]byte = attrs[0].(*stun.Message).TransactionID
+//@ spec func typeOf(attrs []stun.Setter) stun.MessageType = unbox(attrs[1], stun.MessageType)
+//@ spec func isResponseList(attrs []stun.Setter) bool = len(attrs) >= 2 && typeis(attrs[0], *stun.Message) && typeis(attrs[1], stun.MessageType)
+//@ spec func errCodeOf(attrs []stun.Setter) int = (len(attrs) >= 3 && typeis(attrs[2], *stun.ErrorCodeAttribute)) ? int(attrs[2].(*stun.ErrorCodeAttribute).Code) : 0
+
+//@ func buildMsg
+//@   ensures [C19:tx] isResponseList(res) && txOf(res) == transactionID && typeOf(res) == msgType && fresh(res[0])
+//@   ensures [C19:rest] len(res) == 2 + len(additional) && forall i :: 0 <= i && i < len(additional) ==> res[2+i] == additional[i]
+//@   ensures fresh(base(res))
+//@   pure
+
+//@ func buildAndSend
+//@   requires conn != nil
+//@   at-call invoke net.PacketConn.WriteTo assert [C19:dst] recv == conn && arg1 == dst
+//@   ensures [C19:one-write] forall c :: c != conn ==> pktWrites[c] == old(pktWrites[c])
+//@   ensures [C19:at-most-one] pktWrites[conn] <= old(pktWrites[conn]) + 1
+//@   assigns pktWrites
+
+//@ func buildAndSendErr
+//@   requires conn != nil
+//@   ensures [C19:one-write] forall c :: c != conn ==> pktWrites[c] == old(pktWrites[c])
+//@   ensures [C19:at-most-one] pktWrites[conn] <= old(pktWrites[conn]) + 1
+//@   ensures err != nil ==> res != nil
+//@   assigns pktWrites
+
+//@      // ---- long-term credential check (C03)
+//@ spec func presentedUser(m *stun.Message) string = attrText(m, stun.AttrUsername)
+//@ spec func presentedRealm(m *stun.Message) string = attrText(m, stun.AttrRealm)
+//@ spec func credentialsOk(req Request, m *stun.Message, method int) bool = hasAttr(m, stun.AttrMessageIntegrity) && req.AuthHandler != nil && hasAttr(m, stun.AttrNonce) && nonceValid(req.NonceHash, attrText(m, stun.AttrNonce)) && hasAttr(m, stun.AttrRealm) && hasAttr(m, stun.AttrUsername) && handlerOk(req.AuthHandler, presentedUser(m), presentedRealm(m), req.SrcAddr, method)
+//@ spec func respondsTo(req Request, m *stun.Message, conn net.PacketConn, dst net.Addr, attrs []stun.Setter) bool = conn == req.Conn && dst == req.SrcAddr && isResponseList(attrs) && txOf(attrs) == m.TransactionID
+
+//@ func authenticateRequest
+//@   requires reqWF(req) && stunMsg != nil && req.NonceHash != nil
+//@   at-call buildAndSend assert [C19:correlated] respondsTo(req, stunMsg, arg0, arg1, arg2)
+//@   at-call buildAndSendErr assert [C19:correlated] respondsTo(req, stunMsg, arg0, arg1, arg3)
+//@   at-call buildAndSend assert [C03:challenge] (errCodeOf(arg2) == 401 || errCodeOf(arg2) == 438) ==> len(arg2) == 5 && typeis(arg2[3], stun.Nonce) && typeis(arg2[4], stun.Realm) && strOf(unbox(arg2[3], stun.Nonce)) == lastMinted && int(typeOf(arg2).Class) == 3 && typeOf(arg2).Method == callingMethod
+//@   ensures [C03:sound] hasAuth ==> credentialsOk(req, stunMsg, int(callingMethod))
+//@   ensures [C03:key] hasAuth ==> integrityOk(messageIntegrity, stunMsg) && strOf(messageIntegrity) == handlerKey(req.AuthHandler, presentedUser(stunMsg), presentedRealm(stunMsg), req.SrcAddr, int(callingMethod))
+//@   ensures [C03:user] hasAuth ==> username == handlerUser(req.AuthHandler, presentedUser(stunMsg), presentedRealm(stunMsg), req.SrcAddr, int(callingMethod))
+//@   ensures [C03:authed] authOK == hasAuth && (hasAuth ==> authUser == username)
+//@   ensures [C03:no-credentials] !hasAttr(stunMsg, stun.AttrMessageIntegrity) ==> !hasAuth
+//@   ensures [C03:answered] !hasAuth ==> forall c :: c != req.Conn ==> pktWrites[c] == old(pktWrites[c])
+//@   ghost-set authOK = hasAuth
+//@   ghost-set authUser = username when hasAuth
+//@   assigns pktWrites, authOK, authUser, lastMinted
+//@   fresh authOK
+
+//@ func invoke github.com/pion/turn/v5/internal/server.NonceManager.Validate
+//@   nobody
+//@   pure
+//@   ensures (res == nil) == nonceValid(recv, arg0)
+//@ func invoke github.com/pion/turn/v5/internal/server.NonceManager.Generate
+//@   nobody
+//@   ensures res1 == nil ==> lastMinted == res0
+//@   ensures res1 != nil ==> lastMinted == old(lastMinted)
+//@   assigns lastMinted
